@@ -22,7 +22,8 @@ import vlib
 ASFOUND_UNGATED = {"manifest.put", "m:put", "blob.put", "b:put", "image.importTar"}
 
 
-DIMS = ("mt", "feat", "tmo", "cmd")
+DIMS = ("mt", "feat", "tmo", "cmd", "verb", "logfmt", "cfgin")
+DIM_DEFAULT = ("oci", "full", "default", "once", "info", "json", "file")
 
 
 def cfg_key(s):
@@ -35,7 +36,8 @@ def merge_modes(scns):
     for s in scns:
         k = cfg_key(s)
         c = out.setdefault(k, {"world": s["tags"], "wname": s["world"], "par": s["par"], "scripts": s["scripts"],
-                               "mt": s["mt"], "feat": s["feat"], "tmo": s["tmo"], "cmd": s["cmd"], "exp": {}, "final": {}, "status": {}})
+                               "mt": s["mt"], "feat": s["feat"], "tmo": s["tmo"], "cmd": s["cmd"], "verb": s["verb"], "logfmt": s["logfmt"],
+                               "cfgin": s["cfgin"], "exp": {}, "final": {}, "status": {}})
         c["exp"][s["mode"]] = s["exp"]
         c["final"][s["mode"]] = s["final"]
         c["status"][s["mode"]] = s["status"]
@@ -84,8 +86,9 @@ def select(ctx, confs, rng):
     # every value of every config dimension, in every family it is generated for
     by_dim = {}
     for i, c in enumerate(confs):
-        for d, v in (("world", c["wname"]), ("mt", c["mt"]), ("feat", c["feat"]), ("tmo", c["tmo"]), ("cmd", c["cmd"])):
-            if v not in ("A", "oci", "full", "default", "once"):
+        for d, v in (("world", c["wname"]), ("mt", c["mt"]), ("feat", c["feat"]), ("tmo", c["tmo"]), ("cmd", c["cmd"]),
+                     ("verb", c["verb"]), ("logfmt", c["logfmt"]), ("cfgin", c["cfgin"])):
+            if v not in ("A", "oci", "full", "default", "once", "info", "json", "file"):
                 by_dim.setdefault((d, v, family(c)), []).append(i)
     for key in sorted(by_dim):
         for i in vlib.sample(rng, by_dim[key], 6):
@@ -131,6 +134,12 @@ def select(ctx, confs, rng):
                 if key not in seen:
                     seen.add(key)
                     chosen[i] = True
+    # every verbosity with every write binding (registry and layout; alone, fed by a producer, in a
+    # loop, behind a guard) and with a failing script next to another one
+    for i, c in enumerate(confs):
+        if c["verb"] != "info" and c["logfmt"] == "json" and c["cfgin"] == "file":
+            if len(c["scripts"]) == 1 or c["verb"] in ("warn", "error"):
+                chosen[i] = True
     # every way of aborting (error of a string / table / number / ..., runtime fault, stack overflow) in
     # front of another script: sequential, parallel 1, parallel 2, and under `regbot server`
     seen = set()
@@ -393,7 +402,7 @@ def run(ctx):
     # 2. configs + expectations from TLC
     gen = ctx.tlc_scenarios("RegbotGen", "C19_gen.cfg", workers=4, label="config generator (both modes executed by the design spec)")
     confs = merge_modes(gen["scenarios"])
-    if len(confs) < 7000:
+    if len(confs) < 8000:
         raise vlib.ToolError("generator produced only %d configs" % len(confs))
     all_ops = set()
     for c in confs:
@@ -401,7 +410,7 @@ def run(ctx):
     bindings, gone = check_alphabet(ctx, all_ops)
     if replay_conf is not None:
         def rk(c):
-            return json.dumps([norm_tags(c["world"]), c["par"], c["scripts"]] + [c.get(d, x) for d, x in zip(DIMS, ("oci", "full", "default", "once"))],
+            return json.dumps([norm_tags(c["world"]), c["par"], c["scripts"]] + [c.get(d, x) for d, x in zip(DIMS, DIM_DEFAULT)],
                               sort_keys=True)
         want = rk(replay_conf)
         sel = [c for c in confs if rk(c) == want]
@@ -420,7 +429,8 @@ def run(ctx):
             c["id"] = "c%04d" % i
             solo = 1 if (len(c["scripts"]) > 1 and rng.random() < 0.15) else 0
             f.write(json.dumps({"id": c["id"], "world": norm_tags(c["world"]), "par": c["par"], "scripts": c["scripts"],
-                                "solo": solo, "mt": c["mt"], "feat": c["feat"], "tmo": c["tmo"], "cmd": c["cmd"]}) + "\n")
+                                "solo": solo, "mt": c["mt"], "feat": c["feat"], "tmo": c["tmo"], "cmd": c["cmd"],
+                                "verb": c["verb"], "logfmt": c["logfmt"], "cfgin": c["cfgin"]}) + "\n")
 
     # 3. the real binary
     out_file = ctx.path("c19", "traces.jsonl")
@@ -449,10 +459,10 @@ def run(ctx):
             raise vlib.ToolError("malformed trace %s: %s at %s" % (r["trace"]["id"], detail, json.dumps(r["event"])[:400]))
         conf = r["trace"]["scenario"]
         sig = signature(r, conf)
-        what = "%s: %s in config %s (world %s, %s, features %s, timeout %s, %s, parallel %d, scripts %s)" % (
+        what = "%s: %s in config %s (world %s, %s, features %s, timeout %s, %s, -v %s, log %s, config %s, parallel %d, scripts %s)" % (
             detail, json.dumps({k: v for k, v in (r["event"] or {}).items() if k not in ("drytxt", "nortxt")})[:300],
-            r["trace"]["id"], conf["wname"], conf["mt"], conf["feat"], conf["tmo"], conf["cmd"], conf["par"], json.dumps(conf["scripts"])[:400])
-        ctx.report(sig, what, {"config": {k: conf[k] for k in ("world", "par", "scripts", "mt", "feat", "tmo", "cmd")}, "events": r["trace"]["events"],
+            r["trace"]["id"], conf["wname"], conf["mt"], conf["feat"], conf["tmo"], conf["cmd"], conf["verb"], conf["logfmt"], conf["cfgin"], conf["par"], json.dumps(conf["scripts"])[:400])
+        ctx.report(sig, what, {"config": {k: conf[k] for k in ("world", "par", "scripts") + DIMS}, "events": r["trace"]["events"],
                                "rejected_at": r["line"], "cmd": "tools/check C19 --replay <this file>"})
 
     # 5. drift between the design spec and the code (evidence only)
@@ -533,7 +543,7 @@ def run(ctx):
         "exhaustive": bool(ctx.thorough),
         "exhaustive_note": "thorough runs every generated config; quick a seeded sample holding every API function",
         "configs_generated": len(confs), "configs_run": len(sel), "families": fams,
-        "dimension_values_run": {d: sorted({(c["wname"] if d == "world" else c[d]) for c in sel}) for d in ("world", "mt", "feat", "tmo", "cmd")},
+        "dimension_values_run": {d: sorted({(c["wname"] if d == "world" else c[d]) for c in sel}) for d in ("world",) + DIMS},
         "api_functions": sorted(all_ops), "requests_seen_in_dry_runs": nreq, "statements": nstmt,
         "read_results_compared": compared, "solo_control_runs": solo_runs,
         "dry_runs_that_wrote_the_export_tar": tarouts, "runs_in_which_regbot_crashed": crashes,
